@@ -6,15 +6,15 @@
 #ifndef RING_STUB_H
 #define RING_STUB_H
 #include "scq_contract.h"
-struct ring { struct ring_abs a; int64_t th_set; unsigned n_enq, n_deq; uint64_t t_enq, t_deq; };   /* t_*: event time of the last enqueue / dequeue */
-extern size_t xv_expected_rs; extern uint64_t xv_ev;                 /* xv_ev: event counter shared with the element model */
+struct ring { struct ring_abs a; signed char th_set; unsigned char n_enq, n_deq; unsigned short t_enq, t_deq; };   /* t_*: event time of the last enqueue / dequeue */
+extern size_t xv_expected_rs; extern unsigned short xv_ev;                 /* xv_ev: event counter shared with the element model */
 enum { XV_TAG_empty = 1, XV_TAG_full = 2, XV_TAG_first_used = 3, XV_TAG_first_empty = 4 };
 static void ring_args(size_t cap, size_t rs) { XV_OBL(RING_REQ_OBL, cap == CAP && rs == xv_expected_rs); }
 /* scq.init.inv */
 static void ring_ctor(struct ring* r, size_t cap, size_t rs, int tag) {
   ring_args(cap, rs);
   r->a.fin = 0; r->th_set = 0; r->n_enq = 0; r->n_deq = 0; r->t_enq = 0; r->t_deq = 0;
-  for (unsigned i = 0; i < CAP; i++) r->a.vals[i] = nondet_u64();
+  for (unsigned i = 0; i < CAP; i++) r->a.vals[i] = nondet_uchar();
   if (tag == XV_TAG_empty) r->a.cnt = 0;
   else if (tag == XV_TAG_full) { r->a.cnt = CAP; for (unsigned i = 0; i < CAP; i++) r->a.vals[i] = i; }
   else if (tag == XV_TAG_first_used) { r->a.cnt = 1; r->a.vals[0] = 0; }
@@ -37,9 +37,9 @@ static _Bool ring_dequeue(struct ring* r, uint64_t* out, size_t cap, size_t rs) 
 }
 /* scq.finalize.sets */
 static void ring_finalize(struct ring* r) { abs_finalize(&r->a); }
-static void ring_set_threshold(struct ring* r, int64_t v) { XV_OBL(RING_REQ_OBL, v == 3 * CAP - 1); r->th_set = v; }
+static void ring_set_threshold(struct ring* r, int64_t v) { XV_OBL(RING_REQ_OBL, v == 3 * CAP - 1); r->th_set = (signed char)v; }
 static void havoc_ring_abs(struct ring* r) {
-  r->a.cnt = nondet_uint(); XV_ASSUME(r->a.cnt <= CAP); r->a.fin = nondet_bool(); r->th_set = 0; r->n_enq = 0; r->n_deq = 0; r->t_enq = 0; r->t_deq = 0;
-  for (unsigned i = 0; i < CAP; i++) { r->a.vals[i] = nondet_u64(); XV_ASSUME(r->a.vals[i] < CAP); }
+  r->a.cnt = nondet_uchar(); XV_ASSUME(r->a.cnt <= CAP); r->a.fin = nondet_bool(); r->th_set = 0; r->n_enq = 0; r->n_deq = 0; r->t_enq = 0; r->t_deq = 0;
+  for (unsigned i = 0; i < CAP; i++) { r->a.vals[i] = nondet_uchar(); XV_ASSUME(r->a.vals[i] < CAP); }
 }
 #endif
